@@ -155,8 +155,10 @@ func GenConc(rt *rapid.T) *Record {
 		for i := 0; i < n; i++ {
 			k := rapid.IntRange(0, 9).Draw(rt, "opkind")
 			switch {
-			case k < 8:
+			case k < 7:
 				ops = append(ops, Op{Kind: "find", Pkgs: []int{genPkg(rt, r)}})
+			case k < 8:
+				ops = append(ops, Op{Kind: "save", Slot: rapid.IntRange(0, 1).Draw(rt, "slot")})
 			case k < 9:
 				ops = append(ops, Op{Kind: "prepare", Pkgs: []int{genPkg(rt, r), genPkg(rt, r)}})
 			default:
